@@ -1,10 +1,20 @@
 #!/bin/sh
 # Runs every seeded change against the quick check of its property (scratch worktree) and refreshes meta.json.
+# usage: tools/seed_matrix.sh            (JOBS=3 seeds side by side; ONLY=C12 restricts to one property)
 cd /verif
+JOBS=${JOBS:-3}
+run_one() {
+  d="$1"; n=$(basename "$d"); p=$(echo "$n" | grep -oE '[CX][0-9][0-9]' | head -1)
+  [ -z "$p" ] && return
+  [ -n "$ONLY" ] && [ "$p" != "$ONLY" ] && return
+  ./tools/try_patch.sh "$d/patch.diff" "$p" > "$d/check_output.txt" 2>&1
+  echo "$n -> $(grep -E '== ' "$d/check_output.txt")"
+}
+i=0
 for d in seeded/*/; do
-  n=$(basename $d); p=$(echo $n | sed -E 's/^(revert-)?(C[0-9][0-9]).*/\2/')
-  [ -n "$ONLY" ] && [ "$p" != "$ONLY" ] && continue
-  ./tools/try_patch.sh $d/patch.diff $p > $d/check_output.txt 2>&1
-  echo "$n -> $(grep -E '== ' $d/check_output.txt)"
+  run_one "${d%/}" &
+  i=$((i+1))
+  if [ $((i % JOBS)) -eq 0 ]; then wait; fi
 done
+wait
 ./tools/seed_meta.py > /dev/null
